@@ -2,6 +2,7 @@ package main
 
 import (
 	"fmt"
+	"regexp"
 	"go/token"
 	"go/types"
 	"strings"
@@ -432,4 +433,81 @@ func checkCacheKeys(c *Ctx, rule string) {
 	}
 	c.Floor(rule, "cache writes", n, 6)
 	c.Floor(rule, "set-difference helpers checked", len(checked), 1)
+}
+
+// checkLeaseIDNormalisers (C04.R6): the batch lease-id normalisers of the HTTP and gRPC transports forward each id in
+// exactly the form they de-duplicated it under, and both use the same normalisation. The stores and the idempotency
+// cache key lease ids by their trimmed form; an id forwarded in any other spelling is reported as a conflict under
+// one spelling and remembered as settled under another.
+func checkLeaseIDNormalisers(c *Ctx, rule string) {
+	p := c.P
+	type norm struct {
+		fn        *ssa.Function
+		elemTerms []string
+		keyTerms  []string
+	}
+	var norms []norm
+	for _, pkg := range []string{"pullapi", "workerapi"} {
+		for _, fn := range p.FuncsInPkg(pkg) {
+			rs := fn.Signature.Results()
+			if fn.Signature.Recv() != nil || rs.Len() != 3 || !isStringSlice(rs.At(0).Type()) || rs.At(1).Type().String() != "bool" {
+				continue
+			}
+			nm := norm{fn: fn}
+			env := termEnv{fn: fn}
+			for _, b := range fn.Blocks {
+				for _, ins := range b.Instrs {
+					switch x := ins.(type) {
+					case *ssa.Call:
+						bi, ok := x.Call.Value.(*ssa.Builtin)
+						if !ok || bi.Name() != "append" || !isStringSlice(x.Type()) || loopHeaderOf(b) == nil {
+							continue
+						}
+						if sl, ok := x.Call.Args[1].(*ssa.Slice); ok {
+							if al, ok := sl.X.(*ssa.Alloc); ok {
+								for _, ref := range *al.Referrers() {
+									if ia, ok := ref.(*ssa.IndexAddr); ok {
+										for _, r2 := range *ia.Referrers() {
+											if st, ok := r2.(*ssa.Store); ok && st.Addr == ia {
+												nm.elemTerms = append(nm.elemTerms, termOf(st.Val, env))
+											}
+										}
+									}
+								}
+							}
+						}
+					case *ssa.MapUpdate:
+						if loopHeaderOf(b) != nil {
+							nm.keyTerms = append(nm.keyTerms, termOf(x.Key, env))
+						}
+					}
+				}
+			}
+			if len(nm.elemTerms) > 0 && len(nm.keyTerms) > 0 {
+				norms = append(norms, nm)
+			}
+		}
+	}
+	reElem := regexp.MustCompile(`\*&[^()\[\] ]*\[\]`)
+	for i := range norms {
+		for j, t := range norms[i].elemTerms {
+			norms[i].elemTerms[j] = reElem.ReplaceAllString(t, "id")
+		}
+		for j, t := range norms[i].keyTerms {
+			norms[i].keyTerms[j] = reElem.ReplaceAllString(t, "id")
+		}
+	}
+	for _, nm := range norms {
+		e, k := dedupe(nm.elemTerms), dedupe(nm.keyTerms)
+		ok := len(e) == 1 && len(k) == 1 && e[0] == k[0]
+		c.Check(ok, rule, FuncName(nm.fn)+":forwards each lease id in the form it was de-duplicated under", p.Pos(nm.fn.Pos()),
+			"forwarded = dedupe key = "+strings.Join(k, ","),
+			"the id appended to the batch is "+strings.Join(e, " | ")+" but the dedupe/blank key is "+strings.Join(k, " | ")+": the Store and the idempotency cache see a spelling other than the normalised one (conflicts are reported under the trimmed id, so a stale padded id is remembered as settled)")
+	}
+	if len(norms) >= 2 {
+		a, b := dedupe(norms[0].elemTerms), dedupe(norms[1].elemTerms)
+		c.Check(strings.Join(a, "|") == strings.Join(b, "|"), rule, "lease-id normalisers:HTTP and gRPC agree", p.Pos(norms[0].fn.Pos()),
+			"both forward "+strings.Join(a, ","), "the HTTP normaliser forwards "+strings.Join(a, ",")+" but the gRPC one "+strings.Join(b, ","))
+	}
+	c.Floor(rule, "batch lease-id normalisers", len(norms), 2)
 }
